@@ -140,6 +140,9 @@ pub fn execute_c16(scn: &W4Scn) -> RunOutcome {
                     }
                 }
                 let own_active: Vec<usize> = gs.own.iter().copied().filter(|id| before[*id].status == ACTIVE && !is_market_order(&before[*id])).collect();
+                // statistical clause (interior probabilities): only while the generator is the untouched seeded stream
+                let tally_on = scn.inject.is_empty();
+                let multi = if assets > 1 || cfg.market { "m" } else { "s" };
                 match &gs.spec {
                     AgentSpec::Random { n, tick_lo, tick_hi, vol_lo, vol_hi, activity, .. } => {
                         let mut acted = vec![0u32; *n];
@@ -180,6 +183,9 @@ pub fn execute_c16(scn: &W4Scn) -> RunOutcome {
                         }
                         if *activity <= 0.0 {
                             stats.probe("corner_p_eq_0");
+                        }
+                        if tally_on {
+                            tally(&mut stats, &format!("random_activity_{}", multi), *n, total as usize, *activity as f64);
                         }
                     }
                     AgentSpec::Noise { id_start, n, p_limit, p_market, p_cancel, trade_vol, .. } => {
@@ -230,6 +236,11 @@ pub fn execute_c16(scn: &W4Scn) -> RunOutcome {
                             return Err(bad("orders per step", format!("<= {} per kind", nn), format!("{} limit, {} market", lim, mkt)));
                         }
                         check_cancel_corner(*p_cancel, &own_active, &d.cancels, &corner, &mut stats)?;
+                        if tally_on {
+                            tally(&mut stats, &format!("noise_limit_{}", multi), nn, lim, *p_limit as f64);
+                            tally(&mut stats, &format!("noise_market_{}", multi), nn, mkt, *p_market as f64);
+                            tally(&mut stats, &format!("noise_cancel_{}", multi), own_active.len(), d.cancels.len(), *p_cancel as f64);
+                        }
                     }
                     AgentSpec::Momentum { id_start, n, p_cancel, trade_vol, decay, demand, scale, order_ratio, .. } => {
                         // documented probability |demand * tanh(scale * M)| / n with M from the observed mids
@@ -296,6 +307,11 @@ pub fn execute_c16(scn: &W4Scn) -> RunOutcome {
                             return Err(bad("orders per step", format!("<= {}", 2 * *n as usize), d.new_orders.len().to_string()));
                         }
                         check_cancel_corner(*p_cancel, &own_active, &d.cancels, &corner, &mut stats)?;
+                        if tally_on {
+                            tally(&mut stats, &format!("momentum_market_{}", multi), *n as usize, n_mkt, pp);
+                            tally(&mut stats, &format!("momentum_limit_{}", multi), *n as usize, n_lim, (order_ratio * pp).abs());
+                            tally(&mut stats, &format!("momentum_cancel_{}", multi), own_active.len(), d.cancels.len(), *p_cancel as f64);
+                        }
                     }
                 }
                 for (_, o) in &d.new_orders {
@@ -339,6 +355,63 @@ pub fn execute_c16(scn: &W4Scn) -> RunOutcome {
     })();
     stats.sim_time = stats.ops * cfg.step_size;
     RunOutcome { violation: res.err(), stats }
+}
+
+
+// ---------------------------------------------------------------------------------------------
+// interior probabilities (statistical clause of C16 / C17, evaluated over the whole batch)
+// ---------------------------------------------------------------------------------------------
+
+const FIX: f64 = (1u64 << 28) as f64;
+
+/// `trials` independent Bernoulli(p) decisions of one update call, `succ` of which came out "act". Only interior
+/// probabilities are tallied (the corners 0 and >= 1 are decided exactly, per update). One table per (cell, quartile of p):
+/// [successes, trials, sum p * 2^28, sum p (1 - p) * 2^28, update calls].
+fn tally(stats: &mut RunStats, cell: &str, trials: usize, succ: usize, p: f64) {
+    if !(p > 0.0 && p < 1.0) || trials == 0 {
+        return;
+    }
+    let q = ((p * 4.0) as usize).min(3);
+    let k = format!("bern_{}_q{}", cell, q);
+    stats.table_add(&k, 5, 0, succ as u64);
+    stats.table_add(&k, 5, 1, trials as u64);
+    stats.table_add(&k, 5, 2, (trials as f64 * p * FIX).round() as u64);
+    stats.table_add(&k, 5, 3, (trials as f64 * p * (1.0 - p) * FIX).round() as u64);
+    stats.table_add(&k, 5, 4, 1);
+}
+
+/// Batch verdict: for every cell the number of "act" decisions S is a sum of independent Bernoulli(p_i) variables with the
+/// documented p_i. Bernstein: P(|S - sum p_i| >= t) <= 2 exp(-t^2 / (2 (V + t/3))), V = sum p_i (1 - p_i); with
+/// t = L/3 + sqrt(L^2/9 + 2 V L), L = ln(2 cells / delta), a union bound over the cells keeps the false-alarm probability
+/// of the whole batch below delta = 1e-9. Slack: the agents compare a 24-bit uniform draw with an f32 probability
+/// (|P(act) - p| < 2^-23 per trial) and the fixed-point sums round once per update call.
+pub fn finalize_bern(tables: &std::collections::BTreeMap<String, Vec<u64>>, prop: &str) -> (Option<Violation>, serde_json::Value) {
+    let delta = 1e-9f64;
+    let cells = tables.keys().filter(|k| k.starts_with("bern_")).count().max(1);
+    let l = (2.0 * cells as f64 / delta).ln();
+    let mut report = serde_json::Map::new();
+    let mut worst: Option<(f64, Violation)> = None;
+    for (k, v) in tables {
+        if !k.starts_with("bern_") || v.len() < 5 {
+            continue;
+        }
+        let (s, n, e, var, calls) = (v[0] as f64, v[1] as f64, v[2] as f64 / FIX, v[3] as f64 / FIX, v[4] as f64);
+        let t = l / 3.0 + (l * l / 9.0 + 2.0 * var * l).sqrt();
+        let slack = n / (1u64 << 22) as f64 + calls / FIX + 1.0;
+        let dev = (s - e).abs();
+        if dev > t + slack {
+            let ratio = dev / (t + slack);
+            if worst.as_ref().map(|w| ratio > w.0).unwrap_or(true) {
+                worst = Some((
+                    ratio,
+                    Violation::new(prop, "agent-probability-biased", 0, k, format!("{:.1} +- {:.1} actions in {} decisions (sum of the documented probabilities)", e, t + slack, n), format!("{}", v[0]))
+                        .detail(format!("the number of actions lies outside the exact Bernstein bound for independent decisions with the documented probabilities; union bound over {} cells, false-alarm probability < {:e} per batch", cells, delta)),
+                ));
+            }
+        }
+        report.insert(k.clone(), serde_json::json!({"decisions": v[1], "actions": v[0], "expected": e, "threshold": t + slack, "abs_deviation": dev}));
+    }
+    (worst.map(|w| w.1), serde_json::Value::Object(report))
 }
 
 fn check_cancel_corner(
@@ -599,6 +672,11 @@ pub fn execute_c17(scn: &W4Scn) -> RunOutcome {
             if order_ratio == 0.0 && f.limit_buys + f.limit_sells > 0 {
                 return Err(bad("order ratio 0", "no limit orders".into(), format!("{:?}", f)));
             }
+            // interior probabilities: the documented |demand*tanh(scale*M)|/n per trader (times the order ratio for limit
+            // orders), tallied per direction over the whole batch (original run only: the mirrored run re-uses the seed)
+            let dir = if *m > 0.0 { "rising" } else { "falling" };
+            tally(&mut stats, &format!("market_{}", dir), n, f.market_buys + f.market_sells, p.abs());
+            tally(&mut stats, &format!("limit_{}", dir), n, f.limit_buys + f.limit_sells, (order_ratio * p).abs());
         }
         // mirrored run: same seed and parameters, price path mirrored about the centre level. Buys of one run must be the
         // sells of the other, step by step, limit and market orders counted separately. The generator draws of the two
